@@ -28,6 +28,7 @@ type Case struct {
 	// Idle: a busy source whose timestamps do not advance must not be judged idle (IDLETIMEOUT): real-time case
 	Idle     bool   `json:"idle,omitempty"`
 	HookSeed uint64 `json:"hook_seed,omitempty"` // seed of the engine's build-tag-guarded perturbation points (0 = off)
+	Plan     *SPlan `json:"plan,omitempty"`      // planted session late-update scenario (session_late_test.go)
 }
 
 func genIdle(t *rapid.T) Case {
@@ -49,6 +50,9 @@ func genIdle(t *rapid.T) Case {
 func genCase(t *rapid.T) Case {
 	if rapid.IntRange(0, 99).Draw(t, "idlemode") == 57 { // an inner value: rapid favours the ends of a range
 		return genIdle(t)
+	}
+	if rapid.IntRange(0, 9).Draw(t, "planted") == 4 && !pbt.Open("C02", "session-late-update") {
+		return genSessionLate(t)
 	}
 	c := Case{Kind: rapid.SampledFrom([]string{"tumbling", "tumbling", "sliding", "session"}).Draw(t, "kind")}
 	switch c.Kind {
@@ -431,6 +435,9 @@ func runCase(c Case) (res pbt.Result) {
 	}()
 	if c.Idle {
 		return runIdle(c)
+	}
+	if c.Plan != nil {
+		return runSessionLate(c)
 	}
 	out := feed(c, c.Events, c.Pauses, &res)
 	if !out.ok {
